@@ -599,8 +599,17 @@ func c16(g *Gen) {
 	for i := 0; i < n; i++ {
 		prefix := fmt.Sprintf("dc%d/", i)
 		dcForce = map[int]string{1: "no-tag", 2: "detached"}[i]
-		prog, cls := g.genDeepcopyProgram(prefix, 1+g.R.Intn(3), i%2 == 1)
+		npk := 1 + g.R.Intn(3)
+		dcCrossed = i%4 == 3
+		if dcCrossed {
+			npk = 2 + g.R.Intn(2)
+		}
+		prog, cls := g.genDeepcopyProgram(prefix, npk, i%2 == 1)
 		dcForce = ""
+		if dcCrossed {
+			cls = append(cls, "several-input-packages-paths-and-names-sort-differently")
+		}
+		dcCrossed = false
 		if i == 0 {
 			prog, cls = dcFixedProgram(prefix), []string{"dc-fixed-shapes"}
 		}
